@@ -1216,6 +1216,8 @@ def blackbox_searches(o, tier, rng, slices, n):
 MATE_FENS = [
     "6br/5Ppk/7p/8/8/8/8/K7 w - - 0 1",               # the only mate is f8=N#
     "k7/8/8/8/8/7P/5pPK/6BR b - - 0 1",               # ...f1=N#
+    "6bk/8/6K1/8/7B/8/8/8 w - - 0 1",                 # one minor piece each, and still a mate in one: Bf6#
+    "8/8/8/7b/8/6k1/8/6BK b - - 0 1",                 # ...Bf3#
     "6k1/5ppp/8/8/8/8/8/R5K1 w - - 0 1",            # back-rank mate in one
     "7k/5Q2/6K1/8/8/8/8/8 w - - 0 1",                # several mates in one, and stalemating moves
     "7k/8/5K2/6Q1/8/8/8/8 w - - 0 1",                # stalemate trap Qg6?? vs mates
@@ -1706,7 +1708,21 @@ def judge_bestmove(o, case, line, legal_set, terminal):
     return True
 
 
-def go_variants(rng, stm):
+def go_shapes(stm):
+    """every shape of clock information the check knows about, for the side to move `stm`"""
+    me, other = ("w", "b") if stm == "w" else ("b", "w")
+    return go_variants(None, stm, every=True) + [
+        "go %stime -50 %stime 1000 %sinc 100 %sinc 100" % (me, other, me, other),
+        "go %stime -1 %stime 1000 %sinc 2000 %sinc 2000" % (me, other, me, other),
+        "go %stime -170141183460469231731687303715884105728 %sinc 1" % (me, me),
+        "go %stime 100 %sinc 1" % (me, me),
+        "go %stime 101 %stime -5" % (me, other),
+        "go %sinc 50" % me,
+        "go movestogo 0 %stime 5000" % me,
+    ]
+
+
+def go_variants(rng, stm, every=False):
     me, other = ("w", "b") if stm == "w" else ("b", "w")
     v = [
         "go",
@@ -1719,6 +1735,8 @@ def go_variants(rng, stm):
         "go infinite_but_unknown %stime 130" % me,
         "go movestogo 4294967295 %stime 100000" % me,
     ]
+    if every:
+        return v
     return rng.choice(v)
 
 
@@ -1839,6 +1857,29 @@ def run_c03(o, tier, rng, prep):
             o.violation("input", "engine does not answer isready after the session", {"stderr": eng.stderr_text()})
     finally:
         eng.close()
+    # every shape of clock information once, for both colours (negative clocks with an increment, the extreme clock, a bare
+    # increment, movestogo 0, ...): each go is answered by one legal move and the engine is still there afterwards
+    for stm, cmd in (("w", "position startpos"), ("b", "position startpos moves e2e4")):
+        lm = root_legal_moves([proj_to_fen(legal_after([cmd])[0])])[0]
+        eng = blackbox.Engine(V.BINARY)
+        try:
+            eng.handshake()
+            for go in go_shapes(stm):
+                eng.send(cmd)
+                eng.send(go)
+                lines = eng.read_until(lambda l: l.startswith("bestmove"), timeout=15)
+                o.evaluations += 1
+                case = "%s | %s" % (cmd, go)
+                if lines[-1] is None or not judge_bestmove(o, case, lines[-1], lm, False) or not eng.isready(3):
+                    ok = False
+                    if lines[-1] is None:
+                        o.violation("input", "go not answered: %s" % case, {"case": case, "stderr": eng.stderr_text()[-300:]})
+                    eng.close()
+                    eng = blackbox.Engine(V.BINARY)
+                    eng.handshake()
+                hist_add(o, "go shapes")
+        finally:
+            eng.close()
     o.distinct += chains
     o.oblige("exactly one legal, well-formed bestmove per go, along go chains, on the real binary (%d go commands)" % o.evaluations, ok)
     ok3 = corner_capture_sessions(o, tier, rng)
@@ -2100,6 +2141,9 @@ def run_c08(o, tier, rng, prep):
                 o.violation("input", "bestmove after %.0f ms, slice %d ms: %s" % (dt, sl, case), {"case": case, "ms": dt})
             if lm is not None or term:
                 ok = judge_bestmove(o, case, lines[-1], lm or set(), term) and ok
+            if o.evaluations % 2 == 0:
+                eng.send("")                    # a blank line between the answer and the next command changes nothing
+                eng.send("   ")
             if not eng.isready(3):
                 ok = False
                 o.violation("input", "no readyok after the answer: %s" % case, {"case": case, "stderr": eng.stderr_text()})
@@ -2143,6 +2187,27 @@ def run_c08(o, tier, rng, prep):
                     eng.close()
                     eng = blackbox.Engine(V.BINARY)
                     eng.handshake()
+    finally:
+        eng.close()
+    # plans of exactly 0 ms (no clock told, clock at the margin, clock of the other side only): answered at once
+    eng = blackbox.Engine(V.BINARY)
+    try:
+        eng.handshake()
+        for cmd, go in (("position startpos", "go"), ("position startpos", "go wtime 100 btime 100"), ("position startpos moves e2e4", "go wtime 60000 btime 30"),
+                        ("position startpos moves e2e4 e7e5", "go wtime 90 btime 60000"), ("position startpos", "go wtime 0 btime 0 winc 0 binc 0 movestogo 5")):
+            eng.send(cmd)
+            t0 = time.time()
+            eng.send(go)
+            lines = eng.read_until(lambda l: l.startswith("bestmove"), timeout=4)
+            dt = (time.time() - t0) * 1000
+            o.evaluations += 1
+            if lines[-1] is None or dt > 1500 or not eng.isready(3):
+                ok = False
+                o.violation("input", "a go whose plan is 0 ms is not answered within 1.5 s: %s | %s" % (cmd, go), {"case": "%s | %s" % (cmd, go), "ms": dt})
+                eng.close()
+                eng = blackbox.Engine(V.BINARY)
+                eng.handshake()
+        hist_add(o, "plans of 0 ms")
     finally:
         eng.close()
     # a storm of searches of a few milliseconds from quiet positions: improvements arrive in quick succession right at the
